@@ -180,7 +180,7 @@ theorem parseFs_converts_aux (K : Consts) (ts : TypeSystem) (tsIdx : Nat) (s s' 
               · cases h
               · rename_i heap hr2
                 cases h
-                refine ⟨t, fsId, o, kwargs, deferred0, deferred, heap1, ht, hid, ho, hres, rfl, ?_, ?_⟩
+                refine ⟨t, fsId, o, kwargs, deferred0, deferred, heap1, getType_of_getTypeExact ht, hid, ho, hres, rfl, ?_, ?_⟩
                 · intro hann
                   rw [if_pos hann] at hr2
                   split at hr2
